@@ -214,39 +214,101 @@ Qed.
 (* ------------------------------------------------------------------ *)
 (** * the oracle *)
 (* what the theorems use of Head.Init: Head.MinTime() is a lower bound of the in-order samples it
-   loaded (it is the minimum of the loaded chunks' and replayed samples' times) *)
+   loaded (it is the minimum of the loaded chunks' and replayed samples' times), and an int64 *)
 Definition oracle_ok (init : Z -> hdata) : Prop :=
-  forall mv i t, In t (get (h_io (init mv)) i) -> h_min (init mv) <= t.
+  forall mv, minInt64 <= h_min (init mv)
+             /\ forall i t, In t (get (h_io (init mv)) i) -> h_min (init mv) <= t.
+
+(* no replayed tombstone that ends below the loaded in-order minimum covers an out-of-order head
+   sample (such a tombstone is dropped by the read-only open's Init, kept by the read-write one) *)
+Definition tomb_ok (init : Z -> hdata) : Prop :=
+  forall mv i a b t, In (i, (a, b)) (h_tomb (init mv)) -> b < h_min (init mv) ->
+                     In t (get (h_ooo (init mv)) i) -> ~ (a <= t <= b).
+
+Lemma covered_kept_iff m H i t :
+  covered (kept m H i) t = true <-> exists a b, In (i, (a, b)) (h_tomb H) /\ m <= b /\ a <= t <= b.
+Proof.
+  unfold covered, kept. rewrite existsb_exists. split.
+  - intros ([a b] & Hin & Hc). apply in_map_iff in Hin. destruct Hin as ([j [a' b']] & E & Hin).
+    simpl in E. inversion E; subst. apply filter_In in Hin. destruct Hin as [Hin Hf]. simpl in *.
+    b2p. subst. exists a, b. repeat split; auto.
+  - intros (a & b & Hin & Hm & Ht). exists (a, b). split.
+    + apply in_map_iff. exists (i, (a, b)). split; auto. apply filter_In. split; auto. simpl.
+      rewrite Z.eqb_refl. simpl. apply Z.leb_le. auto.
+    + simpl. apply andb_true_iff. split; apply Z.leb_le; lia.
+Qed.
+
+Lemma in_visible v i l t :
+  In t (visible v i l) <-> In t l /\ covered (kept (v_minT v) (v_head v) i) t = false.
+Proof. unfold visible. rewrite filter_In, negb_true_iff. tauto. Qed.
+
+(* two views of the same head whose MinTime differ see the same samples of a list when no
+   tombstone ending between the two MinTimes covers a sample of the list *)
+Lemma visible_same bs1 bs2 w r H i l t :
+  w <= r ->
+  (forall a b, In (i, (a, b)) (h_tomb H) -> w <= b -> b < r -> In t l -> ~ (a <= t <= b)) ->
+  (In t (visible (mkV bs1 r H) i l) <-> In t (visible (mkV bs2 w H) i l)).
+Proof.
+  intros Hwr Hno. rewrite !in_visible. cbn [v_minT v_head].
+  split; intros [Hl Hc]; split; auto.
+  - destruct (covered (kept w H i) t) eqn:E; auto. exfalso.
+    apply covered_kept_iff in E. destruct E as (a & b & Hin & Hm & Ht).
+    destruct (Z_lt_le_dec b r) as [Hb|Hb].
+    + apply (Hno a b Hin Hm Hb Hl Ht).
+    + assert (covered (kept r H i) t = true) by (apply covered_kept_iff; exists a, b; auto). congruence.
+  - destruct (covered (kept r H i) t) eqn:E; auto. exfalso.
+    apply covered_kept_iff in E. destruct E as (a & b & Hin & Hm & Ht).
+    assert (covered (kept w H i) t = true) by (apply covered_kept_iff; exists a, b; repeat split; auto; lia). congruence.
+Qed.
 
 (* ------------------------------------------------------------------ *)
 (** * main theorem: same results when the read-only open loads the head *)
 Theorem same_results (init : Z -> hdata) (bs : list blockd) (mint maxt : Z) (sel : list sid) :
-  oracle_ok init ->
+  oracle_ok init -> tomb_ok init ->
   cutoff bs <= maxt ->
   query (open_ro init bs maxt) mint maxt sel = query (open_rw init bs) mint maxt sel.
 Proof.
-  intros Hor Hle. apply query_ext. intros i t Hi Ht.
+  intros Hor Htb Hle. apply query_ext. intros i t Hi Ht.
   unfold open_ro, open_ro_with, open_rw. rewrite cutoff_sort.
   set (mv := cutoff bs) in *. set (H := init mv).
   destruct (mv <=? maxt) eqn:E; [|b2p; lia]. clear E.
   unfold cands. rewrite !in_app_iff.
   rewrite (block_cands_ext (sort_blocks bs) bs mint maxt i t (fun b => in_sort_blocks b bs)).
-  assert (Hh : In t (head_cands (mkV (sort_blocks bs) (if h_min H <? mv then mv else h_min H) H) mint maxt i)
-               <-> In t (head_cands (mkV bs (if mv =? minInt64 then h_min H else mv) H) mint maxt i)).
+  destruct (Hor mv) as [Hmin Hio']. fold H in Hmin, Hio'.
+  assert (Hio : In t (get (h_io H) i) -> h_min H <= t) by (apply Hio').
+  set (r := if h_min H <? mv then mv else h_min H).
+  set (w := if mv =? minInt64 then h_min H else mv).
+  assert (Hwr : w <= r).
+  { unfold w, r. destruct (h_min H <? mv) eqn:E1; destruct (mv =? minInt64) eqn:E2; b2p; lia. }
+  assert (Hrmax : r = Z.max mv (h_min H)).
+  { unfold r. destruct (h_min H <? mv) eqn:E1; b2p; lia. }
+  assert (Vio : In t (visible (mkV (sort_blocks bs) r H) i (get (h_io H) i))
+                <-> In t (visible (mkV bs w H) i (get (h_io H) i))).
+  { apply visible_same; auto. intros a b Hin Hw Hb Hl Hc. specialize (Hio Hl).
+    unfold r in Hb. unfold w in Hw.
+    destruct (h_min H <? mv) eqn:E1; destruct (mv =? minInt64) eqn:E2; b2p; lia. }
+  assert (Voo : In t (visible (mkV (sort_blocks bs) r H) i (get (h_ooo H) i))
+                <-> In t (visible (mkV bs w H) i (get (h_ooo H) i))).
+  { apply visible_same; auto. intros a b Hin Hw Hb Hl Hc.
+    apply (Htb mv i a b t Hin); auto. fold H.
+    unfold r in Hb. destruct (h_min H <? mv) eqn:E1; b2p; [|auto].
+    unfold w in Hw. destruct (mv =? minInt64) eqn:E2; b2p; lia. }
+  assert (Hh : In t (head_cands (mkV (sort_blocks bs) r H) mint maxt i)
+               <-> In t (head_cands (mkV bs w H) mint maxt i)).
   { unfold head_cands, head_gate; cbn [v_minT v_head]. rewrite !in_app_iff.
     destruct (overlaps mint maxt (h_oomin H) (h_oomax H)) eqn:Eov.
     - rewrite !orb_true_r. tauto.
     - rewrite !orb_false_r.
-      assert (Hio : In t (get (h_io H) i) -> h_min H <= t) by (apply Hor).
-      destruct (h_min H <? mv) eqn:E1; destruct (mv =? minInt64) eqn:E2; b2p.
-      + (* both gates open *)
-        replace (mv <=? maxt) with true by (symmetry; apply Z.leb_le; lia).
-        replace (h_min H <=? maxt) with true by (symmetry; apply Z.leb_le; lia). tauto.
+      assert (Hvis : forall bsx m, In t (visible (mkV bsx m H) i (get (h_io H) i)) -> In t (get (h_io H) i)).
+      { intros bsx m Hv. apply in_visible in Hv. tauto. }
+      destruct (r <=? maxt) eqn:E3; destruct (w <=? maxt) eqn:E4; b2p.
       + tauto.
-      + tauto.
-      + replace (mv <=? maxt) with true by (symmetry; apply Z.leb_le; lia).
-        destruct (h_min H <=? maxt) eqn:E3; b2p; [tauto|].
-        split; [intros [[]|[]]|]. intros [Hin|[]]. specialize (Hio Hin). lia. }
+      + lia.
+      + (* read-write consults the head, read-only does not: nothing in range there *)
+        split; [intros [[]|[]]|]. intros [Hin|[]]. exfalso.
+        specialize (Hio (Hvis _ _ Hin)).
+        unfold r in E3. destruct (h_min H <? mv) eqn:E1; b2p; lia.
+      + tauto. }
   tauto.
 Qed.
 
@@ -280,11 +342,12 @@ Qed.
    History: 100, 200, 1700, 1800; Compact (block [100,1000)); out-of-order 500; Close;
    Querier(0, 900). *)
 Definition w1_blocks : list blockd := [mkB 100 1000 false [(0, [100; 200])]].
-Definition w1_init : Z -> hdata := fun _ => mkH 1700 1800 [(0, [1700; 1800])] [(0, [500])] 500 500.
+Definition w1_init : Z -> hdata := fun _ => mkH 1700 1800 [(0, [1700; 1800])] [(0, [500])] 500 500 [].
 
 Lemma w1_oracle_ok : oracle_ok w1_init.
 Proof.
-  intros mv i t. unfold w1_init; cbn [h_io h_min get flat_map fst snd].
+  intros mv. split; [vm_compute; discriminate|].
+  intros i t. unfold w1_init; cbn [h_io h_min get flat_map fst snd].
   destruct (0 =? i); simpl; intuition lia.
 Qed.
 
@@ -301,11 +364,12 @@ Qed.
    with cut-off 1000 skips both WAL samples. *)
 Definition w2_blocks : list blockd := [mkB 0 1000 true [(0, [150])]].
 Definition w2_init : Z -> hdata :=
-  fun mv => if mv <=? 100 then mkH 100 200 [(0, [100; 200])] [] maxInt64 minInt64 else hempty.
+  fun mv => if mv <=? 100 then mkH 100 200 [(0, [100; 200])] [] maxInt64 minInt64 [] else hempty.
 
 Lemma w2_oracle_ok : oracle_ok w2_init.
 Proof.
-  intros mv i t. unfold w2_init. destruct (mv <=? 100); cbn [h_io h_min hempty get flat_map fst snd].
+  intros mv. unfold w2_init. destruct (mv <=? 100); (split; [vm_compute; discriminate|]); intros i t;
+    cbn [h_io h_min hempty get flat_map fst snd].
   - destruct (0 =? i); simpl; intuition lia.
   - simpl. tauto.
 Qed.
@@ -315,6 +379,32 @@ Lemma same_results_old_refuted :
     query (open_ro_old init bs maxt) mint maxt sel <> query (open_rw init bs) mint maxt sel.
 Proof.
   exists w2_init, w2_blocks, minInt64, maxInt64, [0]. split; [apply w2_oracle_ok|].
+  split; [vm_compute; discriminate|]. vm_compute. discriminate.
+Qed.
+
+(* (3) the read-only open drops a head tombstone that the read-write open keeps: Init's final gc
+   truncates the tombstones before Head.MinTime(), which is the cut-off after tsdb.Open's
+   Head.Truncate but the loaded in-order minimum in the read-only open.  100, 1700, 1800;
+   out-of-order 1750; Compact (the out-of-order chunk file survives, C01's finding); 2600;
+   Delete(1720, 2100); 3400; Compact; Close: cut-off 2000, in-order head data from 2600, the
+   tombstone [1720,2100] covers the re-loaded out-of-order sample 1750. *)
+Definition w4_blocks : list blockd :=
+  [mkB 100 1000 false [(0, [100])]; mkB 1000 2000 true []; mkB 1700 2000 false [(0, [1700])]].
+Definition w4_init : Z -> hdata :=
+  fun _ => mkH 2600 3400 [(0, [2600; 3400])] [(0, [1750])] 1750 1750 [(0, (1720, 2100))].
+
+Lemma w4_oracle_ok : oracle_ok w4_init.
+Proof.
+  intros mv. split; [vm_compute; discriminate|].
+  intros i t. unfold w4_init; cbn [h_io h_min get flat_map fst snd].
+  destruct (0 =? i); simpl; intuition lia.
+Qed.
+
+Lemma same_results_tomb_refuted :
+  exists init bs mint maxt sel, oracle_ok init /\ cutoff bs <= maxt /\
+    query (open_ro init bs maxt) mint maxt sel <> query (open_rw init bs) mint maxt sel.
+Proof.
+  exists w4_init, w4_blocks, minInt64, maxInt64, [0]. split; [apply w4_oracle_ok|].
   split; [vm_compute; discriminate|]. vm_compute. discriminate.
 Qed.
 
@@ -329,41 +419,49 @@ Proof.
   rewrite (H a) by auto. f_equal. apply IH. auto.
 Qed.
 
-(* FlushWAL writes exactly the head data when (a) the last block of the sorted list happens to
-   give the same cut-off as the rule of the opens, (b) the head holds no out-of-order data and
-   (c) no in-order sample below the cut-off (no head chunk straddling it). *)
-Theorem flush_exact_partial (init : Z -> hdata) (bs : list blockd) (sel : list sid) :
-  cutoff_old bs = cutoff bs ->
+(* FlushWAL writes exactly the head data (what the head of a read-only open that loads it shows)
+   when (a) the last block of the sorted list happens to give the same cut-off as the rule of the
+   opens, (b) the head holds no out-of-order data and (c) no in-order sample below the cut-off
+   (no head chunk straddling it). *)
+Theorem flush_exact_partial (init : Z -> hdata) (bs : list blockd) (sel : list sid) (maxt : Z) :
+  cutoff_old bs = cutoff bs -> cutoff bs <= maxt ->
   (forall i, get (h_ooo (init (cutoff bs))) i = []) ->
   (forall i t, In t (get (h_io (init (cutoff bs))) i) ->
        cutoff bs <= t /\ h_min (init (cutoff bs)) <= t <= h_max (init (cutoff bs))) ->
-  flush_content (flush_wal init bs sel) = head_data (init (cutoff bs)) sel.
+  flush_content (flush_wal init bs sel) = head_data (open_ro init bs maxt) sel.
 Proof.
-  intros Hc Hooo Hio. unfold flush_wal. rewrite Hc. set (H := init (cutoff bs)) in *.
+  intros Hc Hle Hooo Hio. unfold flush_wal, open_ro, open_ro_with. rewrite Hc, cutoff_sort.
+  destruct (cutoff bs <=? maxt) eqn:E; [|b2p; lia]. clear E.
+  set (H := init (cutoff bs)) in *.
   set (mint := if h_min H <? cutoff bs then cutoff bs else h_min H).
-  assert (E : flat_map (fun i => match sort_uniq (filter (in_rng mint (h_max H)) (get (h_io H) i)) with
-                                 | [] => [] | l => [(i, l)] end) sel = head_data H sel).
-  { unfold head_data. induction sel as [|i sel IH]; simpl; auto. rewrite IH. f_equal.
-    rewrite Hooo, app_nil_r. rewrite filter_all; auto.
-    intros t Ht. apply in_rng_iff. destruct (Hio i t Ht) as [A [B C]].
+  assert (E : flat_map (fun i => match sort_uniq (filter (in_rng mint (h_max H)) (visible (mkV bs mint H) i (get (h_io H) i))) with
+                                 | [] => [] | l => [(i, l)] end) sel
+              = head_data (mkV (sort_blocks bs) mint H) sel).
+  { unfold head_data. cbn [v_head]. induction sel as [|i sel IH]; simpl; auto. rewrite IH. f_equal.
+    rewrite Hooo. unfold visible at 3. simpl. rewrite app_nil_r.
+    replace (visible (mkV (sort_blocks bs) mint H) i (get (h_io H) i))
+       with (visible (mkV bs mint H) i (get (h_io H) i)) by reflexivity.
+    rewrite filter_all; auto.
+    intros t Ht. apply in_visible in Ht. destruct Ht as [Ht _].
+    apply in_rng_iff. destruct (Hio i t Ht) as [A [B C]].
     unfold mint. destruct (h_min H <? cutoff bs); lia. }
-  rewrite E. destruct (head_data H sel); reflexivity.
+  rewrite E. destruct (head_data (mkV (sort_blocks bs) mint H) sel); reflexivity.
 Qed.
 
 (* the two ways it fails on the code as it is *)
 Lemma flush_refuted_old_cutoff :
   exists init bs sel, oracle_ok init /\ (forall i, get (h_ooo (init (cutoff bs))) i = []) /\
-    flush_content (flush_wal init bs sel) <> head_data (init (cutoff bs)) sel.
+    flush_content (flush_wal init bs sel) <> head_data (open_ro init bs maxInt64) sel.
 Proof.
   exists w2_init, w2_blocks, [0]. split; [apply w2_oracle_ok|]. split.
   - intros i. vm_compute. reflexivity.
   - vm_compute. discriminate.
 Qed.
 
-Definition w3_init : Z -> hdata := fun _ => mkH 100 300 [(0, [100; 200; 300])] [(0, [150])] 150 150.
+Definition w3_init : Z -> hdata := fun _ => mkH 100 300 [(0, [100; 200; 300])] [(0, [150])] 150 150 [].
 Lemma flush_refuted_ooo :
   exists init bs sel, cutoff_old bs = cutoff bs /\
-    flush_content (flush_wal init bs sel) <> head_data (init (cutoff bs)) sel.
+    flush_content (flush_wal init bs sel) <> head_data (open_ro init bs maxInt64) sel.
 Proof.
   exists w3_init, [], [0]. split; [reflexivity|]. vm_compute. discriminate.
 Qed.
